@@ -9,6 +9,8 @@ sys.path.insert(0, REPO)
 sys.path.insert(0, os.path.join(VERIF, "harness"))
 os.environ.setdefault("PYTHONHASHSEED", "0")
 
+JOBS = int(os.environ.get("VERIF_JOBS", os.cpu_count() or 4))
+
 ALLOWED_AXIOMS = {
     # Coq standard library axioms (Reals, functional extensionality, classical logic)
     "ClassicalDedekindReals.sig_forall_dec", "ClassicalDedekindReals.sig_not_dec",
@@ -221,7 +223,7 @@ def coq_eval(work, exprs, imports, shard=None, show=False):
     """exprs: list of Gallina bool terms. Returns (list of bad indices, error text or None)."""
     os.makedirs(work, exist_ok=True)
     if shard is None:
-        shard = min(250, max(10, -(-len(exprs) // (os.cpu_count() or 4))))
+        shard = min(250, max(10, -(-len(exprs) // JOBS)))
     imp = "".join(" " + i for i in sorted(set(imports)))
     files = []
     nsh = -(-len(exprs) // shard)
@@ -235,7 +237,7 @@ def coq_eval(work, exprs, imports, shard=None, show=False):
         files.append((k, name))
     procs = []
     bad, err = [], None
-    maxp = os.cpu_count() or 4
+    maxp = JOBS
     pending = list(files)
     running = []
     results = {}
